@@ -118,7 +118,14 @@ CHECKS = {
              "byte, single-byte corruptions, coordinates >= p, abscissae without a point, wrong/negated ordinates, order-two "
              "points, garbage, buffer lengths size-1/size/size+1 with guard bytes, all radices.",
         ref="§4 C07",
-        note=_NOTE + " Not decided: gt/fp12 compressed form, eb, ep3/4/8 and higher extension fields, *_print. The compression "
+        note=_NOTE + " Second part (drv_codec2 / CodecB / MCCodecB / Codec2Spec, same method): the binary-field text and binary "
+             "forms (fb_size_str / fb_write_str / fb_read_str in every power-of-two radix, fb_write_bin / fb_read_bin at every length, "
+             "unreduced values) and the binary-curve codecs (eb_size_bin / eb_write_bin / eb_read_bin compressed and uncompressed, "
+             "eb_pck / eb_upk out of place and in place) on NIST-B283, NIST-K283 and the GF(2^17) tiny world, for affine, Lopez-Dahab "
+             "projective and lambda representations, every tag byte and length, the point of order two; the definitions are "
+             "model-checked exhaustively on all curves over GF(8), GF(16) (thorough GF(32)). The (de)compression routines of the "
+             "prime-side types are also run in place and out of place (alias events). Not decided: gt/fp12 compressed form, "
+             "ep3/4/8 and higher extension fields, *_print. The compression "
              "bit is the parity of the STORED representation (y*R mod p in Montgomery builds): self-consistent, not SEC 1 interoperable (observation).",
         technique="TLC model checking of Enc/Dec definitions in tiny worlds + TLC trace validation of recorded codec calls"),
     "C03": dict(
